@@ -276,7 +276,8 @@ def run(ctx):
              '@font-face /*t*/ { font-family : x }\nq/*v*/:not(/*w*/.z/*x*/) { top: 0 }\n'
              '@media tv {}\n@media print { /*only*/ }\n@media tv { @x y; }\ne {}\n@media tv { f {} }\n'
              'g:not(nq|k) { color: red !important; color: green !important; c\\olor: blue; COLOR: black !important; top: 1px; top: 2px }\n'
-             '@media print { h:not(nq|m) { left: 0 !important; left: 1px } }')
+             '@media print { h:not(nq|m) { left: 0 !important; left: 1px } }\n'
+             'i /*y*/j, k /*y*//*z*/.l, m:hover /*y*/n { right: 0 }')
     try:
         dom = c03.parse(dense)
         cssutils.ser.prefs.useDefaults()
